@@ -66,3 +66,80 @@ Proof.
   destruct (Pos.eqb_spec z y); [contradiction|]. destruct (Pos.eqb_spec z x); [contradiction|]. now apply H.
 Qed.
 
+
+(* a `for` whose body either raises x (when test holds of the element) or continues, without touching the world *)
+Lemma for_each_first_raise {A} (conv : A -> value) (I : env -> Prop) step (w : world) (test : A -> bool) x :
+  (forall en a, I en -> exists en', I en' /\
+     step (conv a) en w = if test a then SOk (CRaise x) en' w else SOk CNormal en' w) ->
+  forall l en, I en -> exists en', I en' /\
+     for_each step (map conv l) en w = if existsb test l then SOk (CRaise x) en' w else SOk CNormal en' w.
+Proof.
+  intros Hstep. induction l as [|a l IH]; intros en Hen; cbn [map for_each existsb].
+  - exists en. auto.
+  - destruct (Hstep en a Hen) as (en1 & H1 & ->). destruct (test a); cbn [orb].
+    + exists en1. auto.
+    + apply IH. exact H1.
+Qed.
+
+(* a comprehension whose element expression is a pure function of the element *)
+Lemma comp_loop_map {A} (conv : A -> value) (g : A -> value) f (w : world) :
+  (forall a, f (conv a) w = EOk (g a) w) ->
+  forall l, comp_loop f (map conv l) w = EOk (VList (map g l)) w.
+Proof.
+  intros H. induction l as [|a l IH]; cbn [map comp_loop]; [reflexivity|].
+  rewrite H. cbn [andthen]. rewrite IH. reflexivity.
+Qed.
+
+(* a `for` statement over a list, with its step function kept folded *)
+Definition is_for (s : stmt) : Prop := match s with SFor _ _ _ => True | _ => False end.
+Definition for_pat (s : stmt) : pattern := match s with SFor p _ _ => p | _ => PTuple [] end.
+Definition for_iter (s : stmt) : expr := match s with SFor _ i _ => i | _ => ENil end.
+Definition for_body (s : stmt) : stmt := match s with SFor _ _ b => b | _ => SPass end.
+Definition for_step cfg cl (s : stmt) (v : value) (en : env) (w : world) : sres :=
+  match bind_pat (for_pat s) v en with Some en2 => exec cfg cl (for_body s) en2 w | None => SUnsup end.
+
+Lemma exec_for_list cfg cl s en w l w1 : is_for s -> eval cfg cl en (for_iter s) w = EOk (VList l) w1 ->
+  exec cfg cl s en w = for_each (for_step cfg cl s) l en w1.
+Proof. destruct s; try contradiction. intros _ H. cbn [exec for_iter] in *. rewrite H. reflexivity. Qed.
+
+Definition head_of (s : stmt) : stmt := match s with SSeq a _ => a | other => other end.
+Definition tail_of (s : stmt) : stmt := match s with SSeq _ b => b | _ => SPass end.
+Definition is_seq (s : stmt) : Prop := match s with SSeq _ _ => True | _ => False end.
+Lemma exec_seq_parts cfg cl s en w : is_seq s ->
+  exec cfg cl s en w =
+  match exec cfg cl (head_of s) en w with SOk CNormal en1 w1 => exec cfg cl (tail_of s) en1 w1 | other => other end.
+Proof. destruct s; try contradiction. reflexivity. Qed.
+
+Lemma int_pairs_map {A} (f : A -> N * N) l :
+  int_pairs (map (fun a => VPair (VInt (fst (f a))) (VInt (snd (f a)))) l) = Some (map f l).
+Proof. induction l as [|a l IH]; cbn [map int_pairs]; [reflexivity|]. rewrite IH. cbn [option_map]. now destruct (f a). Qed.
+
+(* environments that agree with en0 except on one (loop) variable *)
+Definition agree_but (i : ident) (en0 en : env) : Prop := forall x, x <> i -> lookup en x = lookup en0 x.
+Lemma agree_but_refl i en0 : agree_but i en0 en0.
+Proof. intros x _. reflexivity. Qed.
+Lemma agree_but_bind i en0 en v : agree_but i en0 en -> agree_but i en0 (bind en i v).
+Proof. intros H x Hx. cbn [lookup bind]. destruct (Pos.eqb_spec x i); [contradiction|]. now apply H. Qed.
+
+Definition then_of (s : stmt) : stmt := match s with SIf _ a _ => a | _ => SPass end.
+Definition else_of (s : stmt) : stmt := match s with SIf _ _ b => b | _ => SPass end.
+
+Lemma range_from_S n lo st : range_from (S n) lo st = VInt lo :: range_from n (lo + st) st.
+Proof. reflexivity. Qed.
+
+Definition cond_of (s : stmt) : expr := match s with SIf c _ _ => c | _ => EUnsupported end.
+Definition is_if (s : stmt) : Prop := match s with SIf _ _ _ => True | _ => False end.
+Lemma exec_if_parts cfg cl s en w : is_if s ->
+  exec cfg cl s en w =
+  on_value en (eval cfg cl en (cond_of s) w) (fun v w1 =>
+    match truth v with
+    | None => SUnsup
+    | Some true => exec cfg cl (then_of s) en w1
+    | Some false => exec cfg cl (else_of s) en w1
+    end).
+Proof. destruct s; try contradiction. reflexivity. Qed.
+
+Lemma one_le_shiftl n : (1 <=? N.shiftl 1 n) = true.
+Proof. apply N.leb_le. rewrite N.shiftl_1_l. pose proof (N.pow_nonzero 2 n). lia. Qed.
+Lemma shiftl_sub1 n : N.shiftl 1 n - 1 = N.ones n.
+Proof. unfold N.ones. now rewrite N.sub_1_r. Qed.
